@@ -304,6 +304,16 @@ def run(ctx: Context) -> None:
     r1_r2(ctx, sites)
     r3(ctx)
     r4(ctx)
+    # R5: the error a caller catches is the same object in both modes only if the distributed path carries it unchanged (C05/R4)
+    from . import c05
+
+    ctx.rule("R5", "errors cross the distributed path unchanged: exception envelopes are written and read key by key, arguments stored as they are (shared with C05/R4)")
+    sub = Context("C05", ctx.repo, ctx.tier, ctx.seed)
+    sub._resolver = ctx._resolver
+    c05.r4(sub)
+    for i in sub.instances:
+        ctx.add("R5", i.key.split("/", 2)[2], i.ok, i.where, i.detail)
+    ctx.floor("R5", "exception encoding obligations", ctx.count("R5"), 20)
     ctx.exhaustive = True
     ctx.not_decided += [
         "equality of outcomes for generated task programs (behavioural: nested calls, groups, values)",
